@@ -48,6 +48,13 @@ def strategy(tier):
         'extra_pairs': st.lists(st.sampled_from(['same', 'same', 'diff']),
                                 max_size=2),
         'eol': st.sampled_from(EOLS),
+        # a history on ONE comparison object: the main options, then each
+        # of these other ignore-pattern lists, then the main options again
+        'prelude': st.one_of(
+            st.just([]),
+            st.lists(st.one_of(st.none(), st.lists(
+                st.sampled_from(L.PATTERN_TEXTS), min_size=1, max_size=2,
+                unique=True)), min_size=1, max_size=2)),
     }).map(flatten)
 
 
@@ -76,9 +83,15 @@ def flatten_plain(c):
     return c
 
 
+def valid_prelude(p):
+    return isinstance(p, list) and len(p) <= 3 and all(
+        x is None or (isinstance(x, list) and x
+                      and all(y in L.PATTERN_TEXTS for y in x)) for x in p)
+
+
 def valid(case):
     eol = case.get('eol', '\n')
-    if eol not in EOLS:
+    if eol not in EOLS or not valid_prelude(case.get('prelude', [])):
         return False
     if eol.startswith('exotic:'):
         ch = eol[7:]
@@ -207,22 +220,9 @@ def run(case, ctx):
     with open(act_path, 'w', encoding='utf-8', newline='') as f:
         f.write(to_text(act, case['newline']['act'], eol))
 
-    if entry == 'check_strings':
-        fc = FilesComparison(print_fn=None, verbose=False, tmp_dir=tmp)
-        ok, r = call(fc.check_strings, list(act), list(ref),
-                     create_temporaries=False, **kw)
-        if ok:
-            got_pass = (r.failures == 0)
-    elif entry == 'assertStringCorrect':
-        ok, r = call(rt.assertStringCorrect,
-                     to_text(act, case['newline']['act'], eol), ref_path,
-                     **kw)
-        got_pass = not rec.failed
-    elif entry == 'assertTextFileCorrect':
-        ok, r = call(rt.assertTextFileCorrect, act_path, ref_path, **kw)
-        got_pass = not rec.failed
-    else:
-        aps, rps = [act_path], [ref_path]
+    fc = FilesComparison(print_fn=None, verbose=False, tmp_dir=tmp)
+    aps, rps = [act_path], [ref_path]
+    if entry == 'assertTextFilesCorrect':
         for i, (r_, a_, _) in enumerate(pairs[1:]):
             rp = os.path.join(d, 'ref%d.txt' % i)
             ap = os.path.join(d, 'act%d.txt' % i)
@@ -232,29 +232,70 @@ def run(case, ctx):
                 f.write(to_text(a_, True))
             aps.append(ap)
             rps.append(rp)
-        ok, r = call(rt.assertTextFilesCorrect, aps, rps, **kw)
-        got_pass = not rec.failed
-        expect = expect_all
-    if not ok:
-        out.violate('never-raises', r.bucket(), '%s: %s' % (entry,
-                                                            r.detail()))
-        return out
-    if got_pass != expect:
+
+    def compare(kw):
+        """One comparison through the chosen entry point, on the objects
+        shared by the whole history."""
+        rec.calls = []
+        if entry == 'check_strings':
+            ok, r = call(fc.check_strings, list(act), list(ref),
+                         create_temporaries=False, **kw)
+            return ok, r, (ok and r.failures == 0)
+        if entry == 'assertStringCorrect':
+            ok, r = call(rt.assertStringCorrect,
+                         to_text(act, case['newline']['act'], eol), ref_path,
+                         **kw)
+        elif entry == 'assertTextFileCorrect':
+            ok, r = call(rt.assertTextFileCorrect, act_path, ref_path, **kw)
+        else:
+            ok, r = call(rt.assertTextFilesCorrect, aps, rps, **kw)
+        return ok, r, not rec.failed
+
+    def expectation(o2):
+        if exotic:
+            e, inf = True, {'reason': 'identical-with-line-boundary-char',
+                            'used': [], 'unexcused': []}
+        else:
+            e, inf = L.spec(lines_ref, lines_act, o2)
+        if entry == 'assertTextFilesCorrect':
+            for x in case['extra_pairs']:
+                if x == 'diff':
+                    e = e and L.spec(['LEFT'], ['RIGHT'], o2)[0]
+        return e, inf
+
+    prelude = case.get('prelude') or []
+    history = [('main', o)]
+    if prelude:
+        out.label('history-on-one-object')
+        history += [('other-patterns', dict(o, ignore_patterns=p))
+                    for p in prelude] + [('main-again', o)]
+    for (step, o2) in history:
+        expect, info = expectation(o2)
+        ok, r, got_pass = compare(kwargs_for(o2))
+        if not ok:
+            out.violate('never-raises', r.bucket(), '%s (%s): %s'
+                        % (entry, step, r.detail()))
+            return out
+        if got_pass == expect:
+            continue
         direction = 'should-pass' if expect else 'should-fail'
-        detail = ('%s: comparison %s but the rule says %s (%s); ref %r act '
-                  '%r opts %r' % (entry, 'passed' if got_pass else 'failed',
-                                  'pass' if expect else 'fail',
-                                  info['reason'], ref, act,
-                                  {k: v for (k, v) in o.items() if v}))
+        detail = ('%s (%s): comparison %s but the rule says %s (%s); ref %r '
+                  'act %r opts %r' % (entry, step,
+                                      'passed' if got_pass else 'failed',
+                                      'pass' if expect else 'fail',
+                                      info['reason'], ref, act,
+                                      {k: v for (k, v) in o2.items() if v}))
         line_pairs = [(lines_ref, lines_act)]
         if entry == 'assertTextFilesCorrect':
             line_pairs += [(p[0], p[1]) for p in pairs[1:]]
         if (not exotic and info.get('greedy_would_miss')
-                and greedy_class(case, got_pass, line_pairs)):
+                and greedy_class(dict(case, opts=o2), got_pass, line_pairs)):
             out.known_hit(F_GREEDY, detail)
         else:
-            out.violate('verdict', '%s:%s' % (direction, info['reason']),
-                        detail)
+            out.violate('verdict', '%s:%s%s' % (
+                direction, info['reason'],
+                '' if step == 'main' else ':' + step), detail)
+        break
     return out
 
 
